@@ -167,8 +167,14 @@ class MessageManager(interfaces.TokenInterface, interfaces.MessageManager):
 
         # cancel requests first, and then exchanges: cancelling the pending
         # exchange would trigger enqueued requests to be transmitted
-        self.token_manager.dispatch_error(error, remote)
+        try:
+            self.token_manager.dispatch_error(error, remote)
+        finally:
+            # (even if an application's error callback raised: the exchanges
+            # and held-back messages belong to requests that just failed)
+            self._drop_exchanges_with(remote)
 
+    def _drop_exchanges_with(self, remote):
         keys_for_removal = []
         for key, (
             messageerror_monitor,
